@@ -15,7 +15,7 @@ RULE = ("for every labelled graph in the box (edgeless and disconnected included
         "largest-component fraction of exactly the retained subgraph and the retained-edge law with the product "
         "Bernoulli(phi) law; non-trivial = (graph, phi) with >= 2 edges and 0 < phi < 1")
 BOUNDS = {"quick": "all labelled graphs on 1..4 vertices and on 5 vertices with <= 6 edges; stars M=1..5; 3 relabeled 5-vertex graphs",
-          "thorough": "all labelled graphs on 1..5 vertices; stars M=1..7"}
+          "thorough": "all labelled graphs on 1..5 vertices and on 6 vertices with <= 6 edges; stars M=1..7"}
 ASSUMPTIONS = ["random.random() is used only through order comparisons (symbolic uniform); which comparison outcome "
                "keeps an edge is inferred from the value the code returns, not assumed",
                "phi on a rational grid; other real phi are not covered"]
@@ -23,9 +23,11 @@ PHIS = [Fraction(0), Fraction(1, 4), Fraction(1, 2), Fraction(3, 4), Fraction(1)
 
 
 def instances(tier, seed):
-    for n in range(1, 6):
+    for n in range(1, 7 if tier == "thorough" else 6):
         masks = list(enumr.labelled_graph_masks(n))
         if n == 5 and tier == "quick":
+            masks = [m for m in masks if bin(m).count("1") <= 6]
+        if n == 6:
             masks = [m for m in masks if bin(m).count("1") <= 6]
         for i in range(0, len(masks), 16):
             yield {"kind": "masks", "n": n, "masks": masks[i:i + 16]}
